@@ -627,6 +627,8 @@ func composeStream(c *run.Ctx, s *kit.Summary, r *kit.Rng, table *dnsTable, tag 
 			seq = []string{"B", "D0", "C0"}
 		case i == 3:
 			seq = []string{"B", "C0", "D0"}
+		case i >= 4 && i <= 7: // H2C(true) applied LAST: the http2 transport must dial through what was installed
+			seq = [][]string{{"B", "C0", "H1"}, {"B", "D0", "H1"}, {"B", "D0", "C0", "H1"}, {"B", "C0", "D0", "H1"}}[i-4]
 		default:
 			for k := 1 + r.Pick(7); k > 0; k-- {
 				o := pool[r.Pick(len(pool))]
@@ -664,6 +666,7 @@ func composeStream(c *run.Ctx, s *kit.Summary, r *kit.Rng, table *dnsTable, tag 
 				opts = append(opts, vegeta.Workers(3))
 			}
 		}
+		opts = append(opts, vegeta.Timeout(3*time.Second)) // bounds the probe hits; does not touch the dial function
 		op := "c18.compose " + strconv.Itoa(len(seq)) + " " + strings.Join(seq, " ") + " " + kit.HexS(svcHost) + " " + kit.HexS(svcPort) + " " +
 			kit.HexS(hostC) + " " + kit.HexS(port) + " " + kit.HexS(ipA) + " " + kit.HexS(ipB)
 		s.Case("compose:"+strings.Join(seq, ","), len(seq) >= 2)
@@ -675,26 +678,47 @@ func composeStream(c *run.Ctx, s *kit.Summary, r *kit.Rng, table *dnsTable, tag 
 			continue
 		}
 		dial := atk.VerifDialContext()
-		if dial == nil {
-			st.Add(op, "ok 0")
+		swapped := dial == nil
+		if swapped {
 			s.Count("compose:transport_swapped")
-			continue
 		}
+		va := vegeta.VerifNewAttack("compose", time.Now(), 0)
 		var id int64
 		base := ""
 		probe := func(addr string) string {
 			id++
 			a0, b0, u0 := la.count(), lb.count(), lu.count()
-			ctx, cancel := context.WithTimeout(context.WithValue(context.Background(), dialIDKey{}, id), 3*time.Second)
-			conn, _ := dial(ctx, "tcp", addr)
-			cancel()
-			if conn != nil {
-				conn.Close()
-				waitCount(func() int { return la.count() + lb.count() + lu.count() }, a0+b0+u0+1)
+			var seen []string
+			if !swapped {
+				ctx, cancel := context.WithTimeout(context.WithValue(context.Background(), dialIDKey{}, id), 3*time.Second)
+				conn, _ := dial(ctx, "tcp", addr)
+				cancel()
+				if conn != nil {
+					conn.Close()
+					waitCount(func() int { return la.count() + lb.count() + lu.count() }, a0+b0+u0+1)
+				}
+				rec.mu.Lock()
+				seen = append([]string(nil), rec.byDial[id]...)
+				rec.mu.Unlock()
+			} else {
+				// no dial function to call: one hit of the h2c transport to that address makes it dial
+				rec.mu.Lock()
+				before := len(rec.byDial[0])
+				rec.mu.Unlock()
+				kit.Recover(func() {
+					atk.VerifHit(func(t *vegeta.Target) error { t.Method, t.URL = "GET", "http://"+addr+"/"; return nil }, va)
+				})
+				time.Sleep(20 * time.Millisecond)
+				rec.mu.Lock()
+				uniq := map[string]bool{}
+				for _, a := range rec.byDial[0][before:] {
+					if !uniq[a] {
+						uniq[a] = true
+						seen = append(seen, a)
+					}
+				}
+				rec.mu.Unlock()
 			}
-			rec.mu.Lock()
-			seen := append([]string(nil), rec.byDial[id]...)
-			rec.mu.Unlock()
 			var out []string
 			switch {
 			case len(seen) > 0:
@@ -725,7 +749,42 @@ func composeStream(c *run.Ctx, s *kit.Summary, r *kit.Rng, table *dnsTable, tag 
 			base = "?"
 		}
 		s.Count("compose:base=" + base)
-		st.Add(op, "ok 1 "+base+" | A "+ra+" | B "+rb)
+		flag := "1 "
+		if swapped {
+			flag = "0 "
+		}
+		st.Add(op, "ok "+flag+base+" | A "+ra+" | B "+rb)
+		// oracle, H2C(true) applied after ConnectTo / DNSCaching: the property's clauses hold for the dials
+		// the h2c transport makes (nothing is demanded when H2C comes first)
+		if i >= 4 && i <= 7 {
+			hp := func(h string) string { return kit.HexS(h) + ":" + kit.HexS(port) }
+			wantA, wantB := "", ""
+			switch i {
+			case 4: // ConnectTo
+				wantA, wantB = hp(hostC), hp(hostC)
+			case 5: // DNSCaching
+				wantB = hp(ipA)
+			case 6: // DNSCaching, then ConnectTo (the command's order)
+				wantA, wantB = hp(ipA), hp(ipA)
+			case 7: // ConnectTo, then DNSCaching
+				wantB = hp(ipB)
+			}
+			s.Count("compose:h2c_last_judged")
+			bad := func(kind, what, exp, obs string) {
+				s.Violate(kit.Violation{Kind: kind, What: "H2C(true) applied after the dial options " + strings.Join(seq[:len(seq)-1], ",") + ": " + what,
+					Input: map[string]interface{}{"scenario": "compose", "options": seq}, Expected: exp, Observed: obs, Key: map[string]interface{}{"scenario": "compose_h2c_last"}})
+			}
+			if wantA != "" && ra != wantA {
+				bad("connect_to_target", "a dial to a mapped address did not go to its replacement", wantA, ra)
+			}
+			if rb != wantB {
+				if i == 4 {
+					bad("connect_to_passthrough", "an unmapped address did not pass through unchanged", wantB, rb)
+				} else {
+					bad("dial_target_not_resolved", "a dial did not go to one address resolved for the host (or its replacement)", wantB, rb)
+				}
+			}
+		}
 		// oracle (command's order): the mapped name must reach its replacement through the cache
 		if i == 0 && !(ra == "L"+kit.HexS(ipA) && rb == "L"+kit.HexS(ipA)) {
 			s.Violate(kit.Violation{Kind: "cli_connect_to_rotation", What: "options in the command's order with -keepalive=false: the mapped name did not reach its replacement through the cache, or an unmapped name did not reach its resolved address",
